@@ -167,6 +167,13 @@ partial def valStr (m : List (Nat × Nat)) : V → String × List (Nat × Nat)
       (s!"(o {n} {hexOfString tn}{s})", m1)
 
 def exec : List Sexp → String
+  | [.atom "span", src] =>
+    match src.str? with
+    | none => "bad-op"
+    | some s =>
+      match parseSpan s with
+      | some ns => hexOfString (printSpan ns)
+      | none => "err"
   | [.atom "ser", o, c, v] =>
     match optsOf o, capsOf c, parseV { defined := [], opened := [] } v with
     | some opts, some caps, some (val, _) =>
